@@ -73,6 +73,38 @@ func c10Run(w *W) {
 			return
 		}
 	}
+	// another socket that fails to bind the same address and is closed again
+	// must not disturb this listener ("closing ... affects only that object")
+	if w.Choose(simrt.SShape, 3) == 0 {
+		s2 := w.Sock(kind)
+		err := s2.Listen(laddr)
+		if err == nil {
+			w.Failf("C10/second-listener-accepted", "a second socket could listen on %s while the first still does", laddr)
+			return
+		}
+		s2.Close()
+		w.Settle()
+		ok := false
+		if tran == "msg" {
+			if p := mn.Connect(laddr); p != nil {
+				ok = true
+				msgPeers = append(msgPeers, p)
+			}
+		} else {
+			probe := w.Sock(peerKind[kind])
+			all = append(all, probe)
+			c := w.Do("probe.Dial", func() (interface{}, error) {
+				return nil, probe.DialOptions(laddr, map[string]interface{}{mangos.OptionDialAsynch: false})
+			})
+			c.Wait(time.Second)
+			ok = c.Returned() && c.Err == nil
+		}
+		if !ok {
+			w.Failf("C10/closing-other-socket-broke-listener", "socket B failed to listen on %s (in use) and was closed; now nobody can connect to the socket that owns that address", laddr)
+			return
+		}
+		w.Probe("foreign-close-left-listener-alone")
+	}
 	// connections whose handshake never completes
 	var stalled []*NetConn
 	for i := 0; i < stallers; i++ {
